@@ -151,11 +151,75 @@ route ping(Void, Void, Void)
 route whoami(Void, users.Account, Void)
 '''
 
+SPEC_E = '''namespace perms
+
+import users
+
+annotation_type Noteworthy
+    "Describes a field with noteworthy information"
+    importance String = "low"
+
+annotation_type Audited
+    level Int32 = 1
+
+annotation KindaNoteworthy = Noteworthy()
+annotation MediumNoteworthy = Noteworthy("med")
+annotation ReallyNoteworthy = Noteworthy(importance="high")
+annotation Audit2 = Audited(level=2)
+annotation BetaOnly = Omitted("beta")
+annotation GammaOnly = Omitted("gamma")
+
+alias ImportantString = String
+    @ReallyNoteworthy
+
+alias VeryImportantString = ImportantString
+    @MediumNoteworthy
+
+alias MostImportantString = VeryImportantString
+    @KindaNoteworthy
+    @Audit2
+
+struct Base
+    a String
+        @users.InternalOnly
+    b String?
+        @users.AlphaOnly
+    c Int32 = 3
+        @BetaOnly
+    d String?
+        @GammaOnly
+    e MostImportantString
+
+struct Child extends Base
+    f List(VeryImportantString)
+    g Map(String, MostImportantString)?
+
+struct GrandChild extends Child
+    h String?
+        @users.InternalOnly
+        @KindaNoteworthy
+
+union Pick
+    one Base
+        @BetaOnly
+    two Child
+        @GammaOnly
+    three
+        @users.AlphaOnly
+    four MostImportantString
+        @users.InternalOnly
+
+route choose(Child, Pick, Void)
+'''
+
 
 def spec_set(k=0):
     specs = [('stone_cfg.stone', STONE_CFG), ('files.stone', SPEC_A), ('common.stone', SPEC_B), ('users.stone', SPEC_C)]
     if k % 2 == 1:
         specs.append(('routes_only.stone', SPEC_D))
+        # sets and dicts on the way to the output: inherited omitted callers, several custom annotations of one
+        # annotation type through an alias chain, annotated union members
+        specs.append(('perms.stone', SPEC_E))
     return specs
 
 
